@@ -48,6 +48,7 @@ CONTROLS = {
          "op2->pt == op2->next->pt || preserve_collinear_ ||", "T.removal"),
     ],
     "C04": [
+        ("a clear inside vote is sent to the midpoint fallback", E, "    if (std::abs(outside_cnt) > 1) return (outside_cnt < 0);", "    if (outside_cnt > 1) return false;", "T.inside-vote"),
         ("MoveSplits overwrites the destination list", E, "    for (; orIter != fromOr->splits->end(); ++orIter)\n      toOr->splits->emplace_back(*orIter);", "    *toOr->splits = *fromOr->splits;", "SPLITS.append-only"),
         ("tree mode changes a non-ownership field", E, "        if (using_polytree_)\n          SetOwner(outrec, prevHotEdge->outrec);",
          "        if (using_polytree_)\n        {\n          SetOwner(outrec, prevHotEdge->outrec);\n          outrec->is_open = false;\n        }", "CONFINE"),
@@ -63,6 +64,7 @@ CONTROLS = {
         ("closing vertex compared with the first vertex of the first path", E, "if (!is_open && prev_v->pt == v0->pt)", "if (!is_open && prev_v->pt == vertices->pt)", "ADD.closing-vertex"),
     ],
     "C06": [
+        ("miter threshold derived once in the constructor only", O, "\t\ttemp_lim_ = (miter_limit_ <= 1) ?\n", "\t\tif (temp_lim_ == 0) temp_lim_ = (miter_limit_ <= 1) ?\n", "TARGET.set"),
         ("clean-up union of reversed paths with the wrong fill rule (tree output)", O, "\t\t\tc.Execute(ClipType::Union, FillRule::Negative, *solution_tree);",
          "\t\t\tc.Execute(ClipType::Union, FillRule::Positive, *solution_tree);", "OFFSET.cleanup"),
         ("reversed group offset with the unreversed sign", O, "\t\tgroup_delta_ = (group.is_reversed) ? -delta : delta;", "\t\tgroup_delta_ = delta;", "OFFSET.sign"),
@@ -82,6 +84,7 @@ CONTROLS = {
         ("closing vertex stripped for open end types too", O, "\tfor (Path64& p: paths_in)\n\t  StripDuplicates(p, is_joined);", "\tfor (Path64& p: paths_in)\n\t  StripDuplicates(p, true);", "GROUP.strip-closed"),
     ],
     "C08": [
+        ("clockwise step counted with a signed remainder", R, "        case -3: result += 1; break;", "        case -3: break;", "T.side-algebra"),
         ("Contains made strict on the right", H + "clipper.core.h", "      return rec.left >= left && rec.right <= right &&",
          "      return rec.left >= left && rec.right < right &&", "T.rect"),
         ("start_locs_ not cleared per path", R, "      for (OutPt2List &edge : edges_) edge.clear();\n      start_locs_.clear();\n    }\n    return result;",
@@ -110,6 +113,8 @@ CONTROLS = {
         ("DisposeOutPt deletes before unlinking", E, "    op->prev->next = op->next;\n    op->next->prev = op->prev;\n    delete op;", "    delete op;\n    op->prev->next = op->next;\n    op->next->prev = op->prev;", "LINK.consistent-at-throw"),
     ],
     "C11": [
+        ("first vertex never reaches the maximum of GetBounds", H + "clipper.core.h", "      if (p.x < xmin) xmin = static_cast<T>(p.x);\n      if (p.x > xmax) xmax = static_cast<T>(p.x);\n      if (p.y < ymin) ymin = static_cast<T>(p.y);\n      if (p.y > ymax) ymax = static_cast<T>(p.y);\n    }\n    return Rect<T>(xmin, ymin, xmax, ymax);\n  }\n\n  template <typename T, typename T2>\n  Rect<T> GetBounds(const Paths<T2>& paths)",
+         "      if (p.x < xmin) xmin = static_cast<T>(p.x);\n      else if (p.x > xmax) xmax = static_cast<T>(p.x);\n      if (p.y < ymin) ymin = static_cast<T>(p.y);\n      if (p.y > ymax) ymax = static_cast<T>(p.y);\n    }\n    return Rect<T>(xmin, ymin, xmax, ymax);\n  }\n\n  template <typename T, typename T2>\n  Rect<T> GetBounds(const Paths<T2>& paths)", "BOUNDS.minmax"),
         ("precision no longer validated in RectClip(PathsD)", H + "clipper.h",
          "    if (rect.IsEmpty() || paths.empty()) return PathsD();\n    int error_code = 0;\n    CheckPrecisionRange(precision, error_code);\n    if (error_code) return PathsD();",
          "    if (rect.IsEmpty() || paths.empty()) return PathsD();\n    int error_code = 0;", "R1.validate-before-use"),
@@ -128,6 +133,7 @@ CONTROLS = {
          "\t\tif (!group.lowest_path_idx.has_value()) delta_ = std::abs(delta_);\n\t\tgroup_delta_ = (group.is_reversed) ? -delta_ : delta_;", "LOOP"),
     ],
     "C13": [
+        ("TopX rounds in single precision", E, "return ae.bot.x + static_cast<int64_t>(nearbyint(ae.dx * (currentY - ae.bot.y)));", "return ae.bot.x + static_cast<int64_t>(nearbyintf(ae.dx * (currentY - ae.bot.y)));", "FLOAT.double-only"),
         ("comparator not strict", E, "        return locMin2->vertex->pt.x > locMin1->vertex->pt.x;", "        return locMin2->vertex->pt.x >= locMin1->vertex->pt.x;", "T.comparator"),
         ("Negative not the mirror image of Positive", E, "      case FillRule::Negative:\n        return (e.wind_cnt2 < 0);", "      case FillRule::Negative:\n        return (e.wind_cnt2 <= 0);", "T.symmetry"),
     ],
@@ -160,6 +166,7 @@ CONTROLS = {
          "  ClipperOffset clip_offset( miter_limit,\n    arc_tolerance, false, reverse_solution);", "  ClipperOffset clip_offset( miter_limit,\n    arc_tolerance, reverse_solution);", "FORWARD.param"),
     ],
     "C18": [
+        ("bounding-box twin reads the other axis (HI_PRECISION)", H + "clipper.core.h", "    T bb0miny = CC_MIN(ln1a.y, ln1b.y);", "    T bb0miny = CC_MIN(ln1a.x, ln1b.x);", "AXIS.mirror"),
         ("wrap-around predecessor taken from the moved end marker", H + "clipper.core.h", "        prev = polygon.cend() - 1; //nb: NOT cend (since might equal first)", "        prev = cend - 1;", "WRAP.container-end"),
         ("portable sign logic compares hi words the wrong way", H + "clipper.core.h", "      else result = (ab.hi > cd.hi) ? 1 : -1;", "      else result = (ab.hi < cd.hi) ? 1 : -1;", "P.portable-sign"),
         ("partial sum can wrap", H + "clipper.core.h", "    const uint64_t x2 = hi(a) * lo(b) + hi(x1);", "    const uint64_t x2 = hi(a) * lo(b) + x1;", "P.multiply-no-wrap"),
